@@ -117,7 +117,11 @@ Definition redirect_parent (child stream : Z) : MW (Z * Z) :=
   if f =? 0 then ret (- EINVAL, child) else
   let* r := sys_fileno f in
   if r <? 0 then let* e := get_errno in ret ((if e =? EBADF then - EPIPE else - e), child)
-  else ret (0, r).
+  else
+    (* fileno does not tell whether the descriptor behind the stream is still open *)
+    let* q := sys_getfd r in
+    if q <? 0 then let* e := get_errno in ret ((if e =? EBADF then - EPIPE else - e), child)
+    else ret (0, r).
 
 Definition open_flags (stream : Z) : Z :=
   Z.lor (Z.lor (if stream =? REPROC_STREAM_IN then O_RDONLY else O_WRONLY) O_CREAT) O_CLOEXEC.
@@ -350,13 +354,25 @@ Definition start_fd_val (o : process_options) (prd pwr : Z) (e : start_fd) : Z :
   | E_pread => prd | E_pwrite => pwr
   end.
 
+(* first loop: move child ends that are themselves one of 0..2 (but not their own target)
+   out of the way; returns (r, redirect[]') *)
+Fixpoint child_move_low (l : list (Z * Z)) (n : Z) (acc : list (Z * Z)) : MW (Z * list (Z * Z)) :=
+  match l with
+  | [] => ret (0, rev acc)
+  | (fd, i) :: r =>
+      if negb (fd =? i) && (0 <=? fd) && (fd <? n) then
+        let* q := sys_dupfd fd n in
+        if q <? 0 then let* e := get_errno in ret (- e, rev acc) else child_move_low r n ((q, i) :: acc)
+      else child_move_low r n ((fd, i) :: acc)
+  end.
+
 Fixpoint child_redirect (l : list (Z * Z)) : MW Z :=    (* (redirect[i], i) *)
   match l with
   | [] => ret 0
   | (fd, i) :: r =>
       let* q := sys_dup2 fd i in
       if q <? 0 then let* e := get_errno in ret (- e) else
-      let* q := (if negb (fd =? i) then handle_cloexec fd true else ret q) in
+      let* q := (if negb (fd =? i) then handle_cloexec fd true else handle_cloexec i false) in
       if q <? 0 then ret q else child_redirect r
   end.
 
@@ -364,7 +380,10 @@ Fixpoint child_redirect (l : list (Z * Z)) : MW Z :=    (* (redirect[i], i) *)
 Definition start_child_part (prd pwr : Z) (argv : option (list str)) (program : option (Z * str))
            (env : option (Z * list (Z * str))) (o : process_options) (k : MW unit) : MW unit :=
   let fail_ (r : Z) : MW unit := sys_write pwr [RLit (encode_int (- r))] ;> sys__exit 1 in
-  let* r := child_redirect (imap (fun i e => (start_fd_val o prd pwr e, Z.of_nat i)) start_redirect) in
+  let redirect := imap (fun i e => (start_fd_val o prd pwr e, Z.of_nat i)) start_redirect in
+  let* '(r, redirect) := child_move_low redirect (zlen redirect) [] in
+  if r <? 0 then fail_ r else
+  let* r := child_redirect redirect in
   if r <? 0 then fail_ r else
   let* r := handle_cloexec (po_exit o) false in
   if r <? 0 then fail_ r else
